@@ -161,6 +161,27 @@ func TestVerifH10(t *testing.T) {
 		h10One(vt, alloc, [][]byte{big[:19], big[19:40000], big[40000:]}, "huge")
 		h10One(vt, alloc, [][]byte{big[:20+l-1]}, "huge-truncated")
 	}
+	// C13: every peer its own channel number - also beyond the 16384 numbers that exist (the 16385th peer must not be given
+	// a number that another peer still holds)
+	{
+		bm := newBindingManager()
+		owner := map[uint16]string{}
+		for i := 0; i < 16390; i++ {
+			addr := &net.UDPAddr{IP: net.IPv4(10, byte(i>>16), byte(i>>8), byte(i)), Port: 7000}
+			b := bm.create(addr)
+			if b == nil {
+				continue // refusing (falling back to Send indications) is fine
+			}
+			if prev, dup := owner[b.number]; dup {
+				if still, ok := bm.findByAddr(&net.UDPAddr{IP: net.ParseIP(prev), Port: 7000}); ok && still != nil {
+					vt.Alarm("channel-number-reused", "peer #%d (%s) was given channel 0x%04x, which %s still holds", i+1, addr.IP, b.number, prev)
+					break
+				}
+			}
+			owner[b.number] = addr.IP.String()
+		}
+		vt.Stat("h10.channel-wrap")
+	}
 	// truncated and non-STUN replies
 	h10One(vt, alloc, [][]byte{replies["success"][:10]}, "truncated")
 	h10One(vt, alloc, [][]byte{replies["success-attr"][:25]}, "truncated")
